@@ -677,11 +677,12 @@ FINDING_CLASSIFIERS = {'leading_blank_decode_error': f_leading_blank, 'latin1_ec
 
 # ------------------------------------------------------------------ encoding into Gallina
 def g_bytes(b):
-    return '[' + ';'.join(str(x) for x in b) + ']'
+    b = bytes(b)
+    return '(B 0x1' + b.hex() + ')' if b else '[]'
 
 
 def g_str(s):
-    return '[' + ';'.join(str(ord(c)) for c in s) + ']'
+    return '(U 0x1' + ''.join('%06x' % ord(c) for c in s) + ')' if s else '[]'
 
 
 def g_ostr(s):
